@@ -243,16 +243,23 @@ def okScanCodons (c : CDSIn) (trunc : Bool) (ans : Option (List (List Char))) : 
   | none => ans.isNone
   | some cods => ans == some (if trunc then uptoFirstStop cods else cods)
 
-/-- clause "the protein is the standard-code translation of those codons (start rule per table)" -/
-def okTranslate (c : CDSIn) (trunc : Bool) (table : Nat) (strict : Bool) (ans : Option (List Char)) : Bool :=
-  match c.codonLetters, startCodonsOf table with
-  | some cods, some starts =>
+/-- clause "the protein is the standard-code translation of those codons (start rule per table)",
+    on the list of upper-case codons -/
+def okTranslateCodons (cods : List (List Char)) (trunc : Bool) (table : Nat) (strict : Bool)
+    (ans : Option (List Char)) : Bool :=
+  match startCodonsOf table with
+  | none => ans.isNone
+  | some starts =>
     let used := if trunc then uptoFirstStop cods else cods
     if strict ∧ strictRefuses starts 0 used then ans.isNone
     else match ans with
       | none => false
       | some prot => okProteinFrom starts 0 used prot
-  | _, _ => ans.isNone
+
+def okTranslate (c : CDSIn) (trunc : Bool) (table : Nat) (strict : Bool) (ans : Option (List Char)) : Bool :=
+  match c.codonLetters with
+  | some cods => okTranslateCodons cods trunc table strict ans
+  | none => ans.isNone
 
 /-- first / last codon predicates.  A CDS without a complete codon has no first or last codon: `false`
     and a documented refusal are both accepted there. -/
